@@ -115,6 +115,7 @@ Record chain_ok (v : vobj) : Prop := {
 Definition setter_api (s : setter) : Prop :=
   match s with
   | SAppend f _ => f <> F_RTW /\ f <> F_TRW
+  | SSliceSet f _ => f <> F_RTW /\ f <> F_TRW
   | _ => True
   end.
 Definition setter_nojar (s : setter) : Prop := s <> SJarPlain.
@@ -139,7 +140,7 @@ Proof.
   assert (N01 : F_COOKIES <> F_RTW) by discriminate.
   assert (N02 : F_COOKIES <> F_TRW) by discriminate.
   Local Ltac ck := constructor;
-    cbn [vset_sl vset_mp vset_rt vset_chain vset_tchain vset_scal vset_jar v_sl v_chain v_tchain];
+    cbn [vset_sl vset_mp vset_rt vset_chain vset_tchain vset_scal vset_jar vset_ext v_sl v_chain v_tchain];
     rewrite ?upd_nth_length, ?nth_upd_nth_neq by auto; auto.
   destruct s; cbn [vapply setter_api] in *; try (ck; fail).
   - destruct Hs as [H1 H2]. ck.
@@ -155,23 +156,68 @@ Proof.
       rewrite chain_of_app; congruence.
     + reflexivity.
   - destruct (v_jar v); ck.
+  - destruct Hs as [H1 H2]. ck.
+  - destruct (x_dumper (v_ext v)); ck.
 Qed.
 
-Lemma vclone_eq v : chain_ok v -> vclone v = vset_jar v (if v_fact v then Some [] else v_jar v) (v_fact v).
+Definition scal_filter (l : list (val * val)) := filter (fun kv : nat * val => mem (fst kv) SCAL_KEYS) l.
+
+Lemma vclone_eq v : chain_ok v ->
+  vclone v = vset_scal (vset_jar v (if v_fact v then Some [] else v_jar v) (v_fact v)) (scal_filter (v_scal v)).
 Proof.
-  intros [L C T]. unfold vclone, vset_jar. rewrite C, T. unfold chain_of.
+  intros [L C T]. unfold vclone, vset_jar, vset_scal, scal_filter. cbn. rewrite C, T. unfold chain_of.
   destruct (nth F_RTW (v_sl v) []), (nth F_TRW (v_sl v) []); reflexivity.
+Qed.
+
+Lemma mem_spec k l : mem k l = true <-> In k l.
+Proof.
+  induction l as [|x t IH]; simpl; [split; [discriminate|tauto]|].
+  destruct (Nat.eqb_spec x k); simpl; [tauto|]. rewrite IH. split; [auto|intros [|]; congruence].
+Qed.
+
+Lemma nget_filter K k (l : list (val * val)) :
+  mem k K = true -> nget k (filter (fun kv => mem (fst kv) K) l) = nget k l.
+Proof.
+  intros Hk. unfold nget. induction l as [|[j y] t IH]; simpl; auto.
+  destruct (mem j K) eqn:E; simpl.
+  - destruct (j =? k); auto.
+  - destruct (Nat.eqb_spec j k); [congruence|auto].
+Qed.
+
+(* describe reads the value-typed settings through SCAL_KEYS only *)
+Lemma scal_view_filter l : scal_view (scal_filter l) = scal_view l.
+Proof.
+  unfold scal_view, scal_filter. apply map_ext_in. intros k Hk. rewrite nget_filter; auto. now apply mem_spec.
+Qed.
+
+Lemma describe_scal_filter c r : describe (vset_scal c (scal_filter (v_scal c))) r = describe c r.
+Proof.
+  unfold describe, vset_scal. cbn [v_sl v_mp v_rt v_chain v_tchain v_scal v_jar v_fact v_par v_ext].
+  now rewrite scal_view_filter.
 Qed.
 
 (* right after Clone the clone describes every request exactly as the original does, except that
    a jar made by a factory starts empty *)
 Lemma v_clone_initially_equal v r : chain_ok v ->
   describe (vclone v) r = describe (vset_jar v (if v_fact v then Some [] else v_jar v) (v_fact v)) r.
-Proof. intros H. now rewrite vclone_eq. Qed.
-
-Lemma v_clone_identical v : chain_ok v -> (v_fact v = false \/ v_jar v = Some []) -> vclone v = v.
 Proof.
-  intros H J. rewrite vclone_eq by auto. destruct v as [a b c d e f g h i]; unfold vset_jar; simpl in *.
+  intros H. rewrite vclone_eq by auto.
+  exact (describe_scal_filter (vset_jar v (if v_fact v then Some [] else v_jar v) (v_fact v)) r).
+Qed.
+
+Definition scal_ok (v : vobj) : Prop := forall kv, In kv (v_scal v) -> In (fst kv) SCAL_KEYS.
+
+Lemma scal_filter_id l : (forall kv, In kv l -> In (fst kv) SCAL_KEYS) -> scal_filter l = l.
+Proof.
+  unfold scal_filter. induction l as [|kv t IH]; intros H; auto. cbn [filter].
+  assert (E : mem (fst kv) SCAL_KEYS = true) by (apply mem_spec, H; simpl; auto).
+  rewrite E, IH; auto. intros kv' Hk. apply H. simpl; auto.
+Qed.
+
+Lemma v_clone_identical v : chain_ok v -> scal_ok v -> (v_fact v = false \/ v_jar v = Some []) -> vclone v = v.
+Proof.
+  intros H S J. rewrite vclone_eq by auto. rewrite scal_filter_id by exact S.
+  destruct v as [a b c d e f g h i x]; unfold vset_jar, vset_scal; simpl in *.
   destruct J as [->| ->]; [reflexivity|]. destruct h; reflexivity.
 Qed.
 
